@@ -24,16 +24,31 @@ import (
 //   - non-critical victim: the environment's state does not change.
 //verif:entry HarnessCriticalTaskFailure unwind=96 preempt=1 lazyarrive=1 timers=lazy reach=error,unchanged stub=github.com/AliceO2Group/Control/common/utils.TimeTrack nosched=github.com/AliceO2Group/Control/core/the.mu steps=8000000
 func HarnessCriticalTaskFailure() {
+	c03Failure(false)
+}
+
+// The same failure of a critical task at the very moment the watcher starts (right after deployment and
+// configuration, when the environment is created): whatever the interleaving of the watcher's first steps with the
+// failure, the environment ends in ERROR.
+//verif:entry HarnessFailureAtWatcherStart unwind=96 preempt=2 lazyarrive=1 timers=lazy reach=error stub=github.com/AliceO2Group/Control/common/utils.TimeTrack nosched=github.com/AliceO2Group/Control/core/the.mu steps=8000000
+func HarnessFailureAtWatcherStart() {
+	c03Failure(true)
+}
+
+func c03Failure(atStart bool) {
 	running := vrt.Bool("running")
 	state := "CONFIGURED"
 	taskState := sm.CONFIGURED
 	if running {
 		state, taskState = "RUNNING", sm.RUNNING
 	}
-	victimCritical := vrt.Bool("victim.critical")
-	noiseFirst := vrt.Bool("noise.first") // another critical task changes state just before the victim fails
-	goErrorHookFails := vrt.Bool("goerror.hook.fails")
-	flap := vrt.Bool("victim.flaps") // the failed task reports a healthy state again within the grace period
+	victimCritical, noiseFirst, goErrorHookFails, flap := true, false, false, false
+	if !atStart {
+		victimCritical = vrt.Bool("victim.critical")
+		noiseFirst = vrt.Bool("noise.first") // another critical task changes state just before the victim fails
+		goErrorHookFails = vrt.Bool("goerror.hook.fails")
+		flap = vrt.Bool("victim.flaps") // the failed task reports a healthy state again within the grace period
+	}
 
 	events := make(chan event.Event, 16)
 	var world *task.VerifWorld
@@ -71,7 +86,9 @@ func HarnessCriticalTaskFailure() {
 	envs.m[env.id] = env
 	envs.pendingStateChangeCh[env.id] = env.stateChangedCh
 	env.subscribeToWfState(world.M)
-	vrt.WaitQuiescent(50 * time.Millisecond) // the watcher is subscribed and waiting
+	if !atStart {
+		vrt.WaitQuiescent(50 * time.Millisecond) // the watcher is subscribed and waiting
+	}
 
 	if noiseFirst {
 		go other.(workflow.PublicUpdatable).UpdateState(sm.STANDBY) // root goes MIXED
